@@ -14,6 +14,7 @@ package vs
 
 import (
 	"fmt"
+	"os"
 	"runtime"
 	"sort"
 	"strings"
@@ -366,6 +367,22 @@ func Event(desc string, obj unsafe.Pointer, acq, rel bool) {
 		return
 	}
 	s.event(s.cur, hashString(desc), obj, acq, rel)
+}
+
+// PostPoints switches the scheduling points after release operations on.
+var PostPoints = os.Getenv("VS_POST") != "0"
+
+// After is a scheduling point placed right after a release operation (close, unlock, send, Done): it
+// lets the threads the release has enabled run before the releasing thread's next plain-memory
+// write. An operation moved across a release ("close the pipe, then fill in the trailers") is a data
+// race whose other side may be library code that announces nothing; this point exposes it to the
+// property's oracle at the cost of one preemption.
+func After(desc string, obj unsafe.Pointer) {
+	s := S
+	if s == nil || s.abort || !PostPoints || s.cur == nil {
+		return
+	}
+	Point(desc, obj)
 }
 
 // Exit ends the execution as a process exit with the given code.
